@@ -36,6 +36,8 @@ pub struct Run<'a> {
     pub salt: u64,
     /// Some((sapling size, orchard size)): the wallet was born into a chain with these tree sizes
     pub shard: Option<(u64, u64)>,
+    /// the environment of `sync_loop` only adds blocks (no rewinds)
+    pub no_env_rewinds: bool,
 }
 
 impl<'a> Run<'a> {
@@ -48,12 +50,14 @@ impl<'a> Run<'a> {
         let (w, keys) = W::with_retention(ironwood, interval);
         let chain = Chain::new(w.base, keys, &mut rng, ironwood);
         let trees = std::env::var("VERIF_TREES").map(|v| v == "1").unwrap_or(false);
-        let mut r = Run { w, chain, out, rng, ironwood, next_value: 0, aborted: false, orphaned: vec![], created: vec![], value_scale: 1, trees, salt: seed, shard: None };
+        let mut r = Run { w, chain, out, rng, ironwood, next_value: 0, aborted: false, orphaned: vec![], created: vec![], value_scale: 1, trees, salt: seed, shard: None, no_env_rewinds: false };
         let post = r.post();
         // retention grid of this wallet: interval (0: policy inactive, NU6.3 not active) and first height it applies to
         let grid = if ironwood { interval.unwrap_or(144) } else { 0 };
         let gbase = r.w.base;   // heights are logged relative to `base`; absolute = base + rel
-        r.out.emit(&json!({"a": "reset", "hist": label, "ironwood": ironwood, "grid": grid, "gbase": gbase, "post": post}));
+        let qc = r.w.queue_config();
+        r.out.emit(&json!({"a": "reset", "hist": label, "ironwood": ironwood, "grid": grid, "gbase": gbase,
+                           "bday": qc["bday"], "act": qc["act"], "sizes": qc["sizes"], "post": post}));
         r
     }
 
@@ -63,12 +67,48 @@ impl<'a> Run<'a> {
         let (w, keys, init) = W::sharded(ironwood, sap, orch);
         let chain = Chain::with_initial(w.base, keys, &mut rng, ironwood, &init);
         let trees = std::env::var("VERIF_TREES").map(|v| v == "1").unwrap_or(false);
-        let mut r = Run { w, chain, out, rng, ironwood, next_value: 0, aborted: false, orphaned: vec![], created: vec![], value_scale: 1, trees, salt: seed, shard: Some((sap, orch)) };
+        let mut r = Run { w, chain, out, rng, ironwood, next_value: 0, aborted: false, orphaned: vec![], created: vec![], value_scale: 1, trees, salt: seed, shard: Some((sap, orch)), no_env_rewinds: false };
         let post = r.post();
         let grid = if ironwood { 144 } else { 0 };
         let gbase = r.w.base;
-        r.out.emit(&json!({"a": "reset", "hist": label, "ironwood": ironwood, "grid": grid, "gbase": gbase, "post": post}));
+        let qc = r.w.queue_config();
+        r.out.emit(&json!({"a": "reset", "hist": label, "ironwood": ironwood, "grid": grid, "gbase": gbase,
+                           "bday": qc["bday"], "act": qc["act"], "sizes": qc["sizes"], "post": post}));
         r
+    }
+
+    /// A history for the scan-queue specification (C15): see `W::sharded_ext`. Returns the roots of the shards
+    /// completed before the first fabricated block; the caller decides when and with which end heights the
+    /// wallet learns them (`put_prior`).
+    pub fn sharded_ext(out: &'a mut NdjsonWriter, seed: u64, ironwood: bool, sizes: [u64; 3], early: bool, gap: u32, label: Value)
+        -> (Self, Vec<(Pool, u64, [u8; 32])>) {
+        let mut rng = ChaChaRng::seed_from_u64(seed);
+        let (w, keys, init, priors) = W::sharded_ext(ironwood, sizes, early, gap);
+        let chain = Chain::with_initial(w.base, keys, &mut rng, ironwood, &init);
+        let trees = std::env::var("VERIF_TREES").map(|v| v == "1").unwrap_or(false);
+        let mut r = Run { w, chain, out, rng, ironwood, next_value: 0, aborted: false, orphaned: vec![], created: vec![], value_scale: 1, trees, salt: seed, shard: None, no_env_rewinds: false };
+        let post = r.post();
+        let grid = if ironwood { 144 } else { 0 };
+        let gbase = r.w.base;
+        let qc = r.w.queue_config();
+        r.out.emit(&json!({"a": "reset", "hist": label, "ironwood": ironwood, "grid": grid, "gbase": gbase,
+                           "bday": qc["bday"], "act": qc["act"], "sizes": qc["sizes"], "post": post}));
+        (r, priors)
+    }
+
+    /// put_*_subtree_roots for consecutive shards from `start` in ONE call (`roots`: root and absolute end height each);
+    /// logged as one `roots` event per shard, the projection with the last
+    pub fn put_priors(&mut self, pool: Pool, start: u64, roots: &[([u8; 32], u32)]) {
+        if roots.is_empty() {
+            return;
+        }
+        let res = self.w.put_roots_from(pool, start, roots);
+        let (c, e) = res_class(&res);
+        for (k, (_, h)) in roots.iter().enumerate() {
+            let post = if k + 1 == roots.len() { self.post() } else { json!({"chk": false}) };
+            self.out.emit(&json!({"a": "roots", "pool": pool.code(), "index": start + k as u64, "h": self.w.rel(*h), "res": c, "err": e, "post": post}));
+        }
+        self.aborted |= c == "panic";
     }
 
     /// tell the wallet the roots of the shards the harness chain has completed so far (as a server would)
@@ -104,7 +144,9 @@ impl<'a> Run<'a> {
             .map(|t| {
                 json!({
                     "t": t.uid,
-                    "outs": t.outs.iter().map(|o| json!({"n": o.note, "pool": o.pool.code(), "v": o.value, "acct": o.acct, "int": o.internal})).collect::<Vec<_>>(),
+                    // pos: the position of the wallet's note in its pool's commitment tree on this chain (-1: not the wallet's)
+                    "outs": t.outs.iter().map(|o| json!({"n": o.note, "pool": o.pool.code(), "v": o.value, "acct": o.acct, "int": o.internal,
+                        "pos": if o.note > 0 { self.chain.notes.get(&o.note).map(|n| n.pos as i64).unwrap_or(-1) } else { -1 }})).collect::<Vec<_>>(),
                     "spends": t.spends,
                 })
             })
@@ -293,7 +335,7 @@ impl<'a> Run<'a> {
             scanned_blocks += limit as u64;
             if env_budget > 0 && self.rng.gen_bool(0.15) {
                 env_budget -= 1;
-                if self.rng.gen_bool(0.6) {
+                if self.no_env_rewinds || self.rng.gen_bool(0.6) {
                     let mut taken = vec![];
                     let txs: Vec<TxReq> = (0..self.rng.gen_range(0..2)).map(|_| self.random_tx(&mut taken)).collect();
                     self.block(&txs, &[], true);
